@@ -158,6 +158,7 @@ CONTEXTS = [
     ("<math>", None), ("<math><mi>", None), ("<math><annotation-xml encoding=text/html>", None), ("<math><annotation-xml>", None), ("<frameset>", None), ("<frameset></frameset>", None),
     ("<body></body>", None), ("<body></body></html>", None), ("<frameset></frameset></html>", None), ("<textarea>", None), ("<script>", None), ("<style>", None), ("<plaintext>", None),
     ("<ruby><rt>", None), ("<pre>", None), ("<form>", None), ("<applet><b>", None), ("<nobr>", None), ("<div><rt><rt><rt>", None), ("<object><param>", None),
+    ("<html a><body a=\"\" c=d>x", None), ("<html a=1><head a=1><body>", None),
     ("", "div"), ("", "table"), ("", "tr"), ("", "td"), ("", "select"), ("", "tbody"), ("", "colgroup"), ("", "caption"), ("", "head"), ("", "html"), ("", "body"), ("", "frameset"),
     ("", "title"), ("", "textarea"), ("", "script"), ("", "style"), ("", "noscript"), ("", "plaintext"), ("", "svg"), ("", "math"), ("<b>", "div"), ("<tr>", "table"), ("<td>", "tr"),
 ]
@@ -174,7 +175,7 @@ def render_token(kind, name):
         return "<%s/>" % name
     return OTHER_TOKENS[kind - 4]
 
-OTHER_TOKENS = ["", "x", " ", "\x00", "<!--c-->", "<!DOCTYPE html>", "<!DOCTYPE html PUBLIC \"-//W3C//DTD HTML 4.01 Transitional//EN\">", "\n", "&amp;", "<a href=x>", "<input type=hidden>", "<font size=1>", "<annotation-xml encoding=TEXT/HTML>"]
+OTHER_TOKENS = ["", "x", " ", "\x00", "<!--c-->", "<!DOCTYPE html>", "<!DOCTYPE html PUBLIC \"-//W3C//DTD HTML 4.01 Transitional//EN\">", "\n", "&amp;", "<a href=x>", "<input type=hidden>", "<font size=1>", "<annotation-xml encoding=TEXT/HTML>", "<body a=b c=e f=g>", "<html a=b f=g>"]
 
 def pick(n, i):
     for k in range(n):
@@ -256,8 +257,9 @@ def norm_dom(n):
     for i in range(n.attributes.length):
         a = n.attributes.item(i)
         attrs.append(((a.namespaceURI, a.localName if a.namespaceURI else a.name), a.value))
-    local = n.localName if n.namespaceURI else n.nodeName
-    return ("elem", (n.namespaceURI or HTML_NS, local), tuple(sorted(attrs, key=repr)), tuple(kids))
+    # the element name is the qualified name the builder was given (what the DOM tree walker reports: nodeName), so that
+    # an element called "a:b" is not split into prefix and local name by the reader
+    return ("elem", (n.namespaceURI or HTML_NS, n.nodeName), tuple(sorted(attrs, key=repr)), tuple(kids))
 
 _TB = {}
 def builder(kind):
